@@ -478,9 +478,10 @@ def d1_15(ctx):
         if kind == "unknown":
             ctx.undecided(key, fnm, f"_read_build_multi_requests not foldable when the first request fills a packet: {res}")
         else:
-            groups = [[r.tag for r in m.requests] if isinstance(m, Obj) and m.__dict__.get("kind") == "Multi" else describe(m) for m in res] if kind == "return" and isinstance(res, list) else res
-            ctx.check(groups == [["edge"], ["s1", "s2"]], key, fnm, "a first request that fills a packet goes alone, the following ones share the next packet, no empty packet",
-                      f"with a first request whose estimated reply ({edge} + 22 bytes) fills a 500-byte packet the builder gives {groups!r}; expected [['edge'], ['s1', 's2']]")
+            groups = [[r.tag for r in m.requests] if isinstance(m, Obj) and m.__dict__.get("kind") == "Multi" else (m.__dict__.get("kind"), m.__dict__.get("tag")) if isinstance(m, Obj) else m for m in res] if kind == "return" and isinstance(res, list) else res
+            # alone in a packet of its own or read by fragments: either is within the connection size (the exact bounds are D4.12)
+            ctx.check(groups in ([["edge"], ["s1", "s2"]], [["s1", "s2"], ("RTF", "edge")]), key, fnm, "a first request that fills a packet goes alone (or by fragments), the following ones share a packet, no empty packet",
+                      f"with a first request whose estimated reply ({edge} + 22 bytes) fills a 500-byte packet the builder gives {groups!r}; expected [['edge'], ['s1', 's2']] or [['s1', 's2'], ('RTF', 'edge')]")
         parsed = {0: _parsed(0, "big"), 1: _parsed(1, "big")}
         kind, res = run_function(ctx, lx.module, fnm, {"self": _driver(connection_size=500), fnm.args.args[1].arg: parsed}, call_hook=chain(size_hook, packet_markers([])), deep=False)
         key = ckey(lx.key + "._read_build_multi_requests", "witness:only fragmented requests")
@@ -1006,6 +1007,74 @@ def d16_8(ctx):
                   f"get_plc_info ({label}): {kind} {res!r}; request {dict((k, v) for k, v in seen.items() if k != 'data_type')!r}")
 
 
+@rule("C04", "D4.12", "T-WITNESS", floor=300)
+def d4_12(ctx):
+    """Every size in the windows below the connection size (both sizes a connection can have): the multi-request builders are
+    folded on one request of that size next to a small one, in both orders.  Whatever they build must fit: a Multiple Service
+    request is sequence 2 + service 1 + path size 1 + path 4 + count 2 + per member (offset 2 + its message without the sequence
+    count) bytes; the reply it solicits is sequence 2 + reply header 4 + count 2 + per member (offset 2 + header 4 + type 2 +
+    data) bytes; both <= the connection size.  Every request is sent exactly once - as a member of a packet or by the fragmented
+    service.  The oracle is the wire layout (spec), not the builder's own estimate."""
+    lx = _lx(ctx)
+    enc = lambda call, env, it: b"<v>" if (call_name(call) or "") == "encode_value" else UNKNOWN  # noqa: E731
+    fr, fw = lx.methods.get("_read_build_multi_requests"), lx.methods.get("_write_build_multi_requests")
+    if fr is None or fw is None:
+        ctx.undecided(ckey(lx.key, "multi-request builders"), lx.node, "anchor vanished")
+        return
+    MSG = 10  # the shortest Read Tag message: sequence 2 + service 1 + path size 1 + one 4-byte segment + count 2
+
+    def groups_of(res):
+        out = []
+        for m in res:
+            d = m.__dict__ if isinstance(m, Obj) else {}
+            if d.get("kind") == "Multi":
+                out.append(("Multi", [r.tag for r in d["requests"]]))
+            elif d.get("kind") in ("RTF", "WTF"):
+                out.append((d["kind"], [d.get("tag")]))
+            else:
+                out.append(("?", [describe(m)]))
+        return out
+
+    for conn in (500, 4000):
+        for order in ("first", "second"):
+            names = ("edge", "small") if order == "first" else ("small", "edge")
+            # reads: data bytes of the large request
+            for data in range(conn - 40, conn + 1):
+                sizes = {"edge": data, "small": 4}
+                parsed = {i: _parsed(i, t) for i, t in enumerate(names)}
+                hook = lambda call, env, it, sizes=sizes: sizes[it.ev(call.args[0], env)["plc_tag"]] if (call_name(call) or "") == "_tag_return_size" else UNKNOWN  # noqa: E731
+                kind, res = run_function(ctx, lx.module, fr, {"self": _driver(connection_size=conn), fr.args.args[1].arg: parsed}, call_hook=chain(hook, packet_markers([], sizes={"edge": MSG, "small": MSG})), deep=False)
+                key = ckey(lx.key + "._read_build_multi_requests", f"window:{conn}:{order}:{data}")
+                if kind != "return" or not isinstance(res, list):
+                    if kind == "unknown":
+                        ctx.undecided(key, fr, f"_read_build_multi_requests not foldable on a {data}-byte read next to a small one: {res}")
+                    else:
+                        ctx.violation(key, fr, f"reading {data} data bytes next to a small tag on a {conn}-byte connection: the builder ends with {kind} {res!r}")
+                    continue
+                gs = groups_of(res)
+                sent = sorted(t for _, g in gs for t in g)
+                over = [(g, 8 + sum(8 + sizes[t] for t in g)) for k, g in gs if k == "Multi" and 8 + sum(8 + sizes.get(t, 0) for t in g) > conn]
+                ctx.check(sent == ["edge", "small"] and not over and all(k in ("Multi", "RTF") for k, _ in gs), key, fr, f"{data} data bytes next to a small tag, {conn}-byte connection: {gs!r} fits",
+                          f"read of {data} data bytes ({order}) next to a small tag on a {conn}-byte connection is sent as {gs!r}: " + (f"the Multiple Service packet {over[0][0]} solicits a reply of {over[0][1]} bytes, larger than the connection" if over else "not every request is sent exactly once"))
+            # writes: message bytes (with the sequence count) of the large request
+            for msg in range(conn - 40, conn + 3):
+                sizes = {"edge": msg, "small": 20}
+                parsed = {i: _wparsed(i, t, value=1) for i, t in enumerate(names)}
+                kind, res = run_function(ctx, lx.module, fw, {"self": _driver(connection_size=conn), fw.args.args[1].arg: parsed}, call_hook=chain(enc, packet_markers([], sizes=sizes)), deep=False)
+                key = ckey(lx.key + "._write_build_multi_requests", f"window:{conn}:{order}:{msg}")
+                if kind != "return" or not isinstance(res, list):
+                    if kind == "unknown":
+                        ctx.undecided(key, fw, f"_write_build_multi_requests not foldable on a {msg}-byte write next to a small one: {res}")
+                    else:
+                        ctx.violation(key, fw, f"writing a {msg}-byte request next to a small one on a {conn}-byte connection: the builder ends with {kind} {res!r}")
+                    continue
+                gs = groups_of(res)
+                sent = sorted(t for _, g in gs for t in g)
+                over = [(g, 10 + sum(sizes[t] for t in g)) for k, g in gs if k == "Multi" and 10 + sum(sizes.get(t, 0) for t in g) > conn]
+                ctx.check(sent == ["edge", "small"] and not over and all(k in ("Multi", "WTF") for k, _ in gs), key, fw, f"{msg}-byte write request next to a small one, {conn}-byte connection: {gs!r} fits",
+                          f"write request of {msg} bytes ({order}) next to a small one on a {conn}-byte connection is sent as {gs!r}: " + (f"the Multiple Service packet {over[0][0]} is {over[0][1]} bytes, larger than the connection" if over else "not every request is sent exactly once"))
+
+
 # the same obligations under the other properties they carry (a request id collision breaks isolation, C03; an oversized
 # request breaks fragmentation, C04; the error a failed member reports is C13)
 rule("C03", "D3.12", "T-WITNESS", floor=8)(d2_12)
@@ -1370,7 +1439,8 @@ def _array_rule(ctx):
     arr = ctx.model.cls(f"{DTm}:Array.Array")
     enc, dec = arr.methods["encode"], arr.methods["decode"]
     usint = ClassRef(ctx.model.cls(f"{DTm}:USINT"))
-    elem, bits, elem2, bits2 = Obj(kind="elem", size=1), Obj(kind="bits", size=1), Obj(kind="elem", size=2), Obj(kind="bits", size=2)
+    # (numeric witnesses carry the struct format of an unsigned little-endian integer of their size, as the elementary types do)
+    elem, bits, elem2, bits2 = Obj(kind="elem", size=1, _format="<B"), Obj(kind="bits", size=1), Obj(kind="elem", size=2, _format="<H"), Obj(kind="bits", size=2)
 
     def hook(call, env, it):
         n = call_name(call) or ""
@@ -2457,7 +2527,7 @@ def _forward_open_rule(ctx):
     mrp = ctx.folder.module_value(cd.module.name, "MSG_ROUTER_PATH")
     for label, ext, size, granted in (("large, granted", True, 4000, True), ("standard, granted", False, 500, True), ("large, refused", True, 4000, False), ("standard, size 511", False, 511, True), ("large, size 65535", True, 65535, True)):
         seen = {}
-        me = Obj(_ci=cd, _target_is_connected=False, _session=0x1234, _cfg=dict(cfg0, **{"extended forward open": ext, "connection_size": size}), connection_size=size, _target_cid=None)
+        me = Obj(_ci=cd, _target_is_connected=False, _session=0x1234, _cfg=dict(cfg0, cip_path=["<route>"], **{"extended forward open": ext, "connection_size": size}), connection_size=size, _target_cid=None)
         gm = self_call("generic_message", lambda a, k, seen=seen, granted=granted: seen.update(k) or _resp(granted, value=b"TCID" + b"rest" if granted else None, error=None if granted else "Connection failure"))
         kind, res = run_function(ctx, cd.module, fn, {"self": me}, call_hook=chain(path_hook, gm), deep=False)
         key = ckey(cd.key + "._forward_open", f"witness:{label}")
@@ -2478,6 +2548,8 @@ def _forward_open_rule(ctx):
             diffs.append(f"route {seen.get('route_path')!r} (expected the configured path followed by the message router, with a word count)")
         if (kind, res) != ("return", granted) or me._target_is_connected is not granted or (granted and me._target_cid != b"TCID") or (not granted and me._target_cid is not None):
             diffs.append(f"outcome {kind} {res!r}, connected={me._target_is_connected}, target cid={me._target_cid!r}")
+        if me._cfg.get("cip_path") != ["<route>"]:
+            diffs.append(f"the driver's stored route is {me._cfg.get('cip_path')!r} afterwards (it was ['<route>']): every later routed request carries the changed route")
         ctx.check(not diffs, key, fn, f"{label}: service, parameters and outcome as specified", f"_forward_open ({label}): {diffs[:2]}")
     for label, me, want in (("already connected", Obj(_ci=cd, _target_is_connected=True, _session=5, _cfg=dict(cfg0)), ("return", True)), ("no session", Obj(_ci=cd, _target_is_connected=False, _session=0, _cfg=dict(cfg0)), ("raise", "CommError"))):
         sent = []
@@ -2546,7 +2618,7 @@ def _session_rule(ctx):
     if isinstance(prio, bytes) and isinstance(ticks, bytes) and isinstance(mrp, (list, tuple)):
         for label, session, granted in (("granted", 0x1234, True), ("refused", 0x1234, False), ("no session", 0, True)):
             seen = []
-            me = Obj(_ci=cd, _target_is_connected=True, _session=session, _cfg=dict(cfg0), _target_cid=b"TCID")
+            me = Obj(_ci=cd, _target_is_connected=True, _session=session, _cfg=dict(cfg0, cip_path=["<route>"]), _target_cid=b"TCID")
             gm = self_call("generic_message", lambda a, k, seen=seen, granted=granted: seen.append(k) or _resp(granted, value=b"" if granted else None, error=None if granted else "refused"))
             kind, res = run_function(ctx, cd.module, fn, {"self": me}, call_hook=chain(path_hook, gm), deep=False)
             key = ckey(cd.key + "._forward_close", f"witness:{label}")
@@ -2570,6 +2642,8 @@ def _session_rule(ctx):
                 diffs.append(f"route {k.get('route_path')!r} (expected the configured path followed by the message router, with word count and reserved byte)")
             if (kind, res) != ("return", granted) or me._target_is_connected is not (not granted):
                 diffs.append(f"outcome {kind} {res!r}, connected={me._target_is_connected}")
+            if me._cfg.get("cip_path") != ["<route>"]:
+                diffs.append(f"the driver's stored route is {me._cfg.get('cip_path')!r} afterwards (it was ['<route>']): a driver opened again sends every routed request over the changed route")
             ctx.check(not diffs, key, fn, f"Forward Close, {label}: request and outcome as specified", f"_forward_close ({label}): {diffs[:2]}")
     else:
         ctx.undecided(ckey(cd.key + "._forward_close", "witness"), fn, "Forward Close constants are not foldable")
@@ -2702,6 +2776,47 @@ def _send_rule(ctx):
         if not (kind == "return" and isinstance(res, tuple) and len(res) == 3 and res[0] == "response" and res[1] is req and res[2] == want_reply):
             diffs.append(f"result {kind} {res!r} (expected the response class applied to the request and {want_reply!r})")
         ctx.check(not diffs, key, fn, f"{label}: built, sent and answered as specified", f"CIPDriver.send on an {label}: {diffs[:2]}")
+    # the transport steps themselves: `_send` hands the frame to the socket in one call, whole and unchanged, whatever its size is
+    # next to the connection size (one write = one encapsulation frame); `_receive` returns what the socket assembled; a failure of
+    # the socket is CommError
+    fs, fr = cd.methods.get("_send"), cd.methods.get("_receive")
+    if fs is None or fr is None:
+        ctx.undecided(ckey(cd.key + "._send", "witness"), cd.node, "anchor vanished")
+        return
+    for conn in (500, 4000):
+        for n in (24, 44, conn - 1, conn, conn + 1, conn + 44, 2 * conn + 3):
+            frame = bytes((i * 7 + 1) % 256 for i in range(n))
+            wrote = []
+            sock = Obj(kind="socket", send=PyFunc(lambda m, *a, **k: wrote.append(bytes(m)) or len(m), "send"))
+            me = Obj(_ci=cd, _sock=sock, connection_size=conn, _cfg={"connection_size": conn, "socket_timeout": 5})
+            kind, res = run_function(ctx, cd.module, fs, {"self": me, fs.args.args[1].arg: frame}, deep=False)
+            key = ckey(cd.key + "._send", f"witness:{n} bytes on a {conn}-byte connection")
+            if kind == "unknown":
+                ctx.undecided(key, fs, f"_send not foldable on a {n}-byte frame: {res}")
+                continue
+            ctx.check(kind == "return" and wrote == [frame], key, fs, f"{n}-byte frame: one write of the whole frame",
+                      f"_send of a {n}-byte frame on a {conn}-byte connection ends with {kind} {res if kind != 'return' else ''!r} after {len(wrote)} write(s) of {[len(w) for w in wrote]} bytes: every write must be one whole encapsulation frame")
+    for label, fnx, attr in (("_send", fs, "send"), ("_receive", fr, "receive")):
+        def boom(*a, **k):
+            raise _Raise("OSError")
+
+        me = Obj(_ci=cd, _sock=Obj(kind="socket", **{attr: PyFunc(boom, attr)}), connection_size=500, _cfg={"connection_size": 500})
+        env = {"self": me}
+        if label == "_send":
+            env[fnx.args.args[1].arg] = b"<frame>"
+        kind, res = run_function(ctx, cd.module, fnx, env, deep=False)
+        key = ckey(cd.key + "." + label, "witness:socket failure")
+        if kind == "unknown":
+            ctx.undecided(key, fnx, f"{label} not foldable when the socket fails: {res}")
+        else:
+            ctx.check(kind == "raise" and res == "CommError", key, fnx, f"{label}: a socket failure is CommError", f"{label} with a failing socket ends with {kind} {res!r} (expected CommError)")
+    me = Obj(_ci=cd, _sock=Obj(kind="socket", receive=PyFunc(lambda *a, **k: b"<assembled reply>", "receive")), connection_size=500, _cfg={"connection_size": 500})
+    kind, res = run_function(ctx, cd.module, fr, {"self": me}, deep=False)
+    key = ckey(cd.key + "._receive", "witness:reply")
+    if kind == "unknown":
+        ctx.undecided(key, fr, f"_receive not foldable: {res}")
+    else:
+        ctx.check((kind, res) == ("return", b"<assembled reply>"), key, fr, "_receive returns the frame the socket assembled", f"_receive gives {kind} {res!r}; the socket assembled b'<assembled reply>'")
 
 
 rule("C11", "D11.13", "T-WITNESS", floor=3)(_send_rule)
@@ -2710,6 +2825,10 @@ rule("C10", "D10.13", "T-WITNESS", floor=10)(_session_rule)
 rule("C11", "D11.11", "T-WITNESS", floor=10)(_session_rule)
 rule("C10", "D10.11", "T-WITNESS", floor=20)(_close_rule)
 rule("C10", "D10.12", "T-WITNESS", floor=6)(_forward_open_rule)
+# the parsed route is stored once and appended to the requests that are routed: the driver's own Forward Open / Forward Close must carry
+# it followed by the message router and leave the stored route as parsed (C15: every request of a re-opened driver is routed by it)
+rule("C15", "D15.15", "T-WITNESS", floor=6)(_forward_open_rule)
+rule("C15", "D15.16", "T-WITNESS", floor=10)(_session_rule)
 
 
 # ---------------------------------------------------------------------------------------------------------------- MapMeta
